@@ -293,6 +293,63 @@ func init() {
 				}
 				return true
 			})
+			// the same facts when the successors are collected by a helper analysed in place, or in another
+			// local order: follow the value of the expression the successor loop ranges over to its sources
+			var succLoop *ast.RangeStmt
+			fi.inspect(v.loop.Body, func(nd ast.Node) bool {
+				rs, ok := nd.(*ast.RangeStmt)
+				if !ok || rs.Value == nil || succLoop != nil {
+					return true
+				}
+				pushes := false
+				fi.inspect(rs.Body, func(m ast.Node) bool {
+					if as, ok := m.(*ast.AssignStmt); ok && len(as.Lhs) == 1 && len(as.Rhs) == 1 && fi.varOf(as.Lhs[0]) == v.stk && fi.isBuiltin(as.Rhs[0], "append") != nil {
+						pushes = true
+					}
+					return true
+				})
+				if pushes {
+					succLoop = rs
+				}
+				return true
+			})
+			if succLoop != nil && (!succProvider || !succField) {
+				for _, src := range fi.valueSources(succLoop.X) {
+					f := src.fi
+					var elems []ast.Expr
+					switch x := ast.Unparen(src.expr).(type) {
+					case *ast.CompositeLit:
+						elems = x.Elts
+					case *ast.CallExpr:
+						if f.isBuiltin(x, "append") != nil && len(x.Args) >= 2 {
+							elems = x.Args[1:]
+						}
+					}
+					for _, el := range elems {
+						sel, ok := ast.Unparen(el).(*ast.SelectorExpr)
+						if !ok || f.selField(sel) == nil {
+							continue
+						}
+						switch f.selField(sel).Name() {
+						case "Type":
+							if loop, ok := f.enclosingLoop(src.expr).(*ast.RangeStmt); ok && loop.Value != nil && f.varOf(loop.Value) == f.varOf(sel.X) {
+								if af := f.selField(loop.X); af != nil && af.Name() == "Args" && f.loopComplete(loop) {
+									if f.isCall(f.deref(loop.X.(*ast.SelectorExpr).X), pathW+".ProvidedType.Provider") != nil {
+										succProvider = true
+										if argsVar == nil {
+											argsVar = fi.varOf(succLoop.X)
+										}
+									}
+								}
+							}
+						case "Parent":
+							if f.isCall(f.deref(sel.X), pathW+".ProvidedType.Field") != nil {
+								succField = true
+							}
+						}
+					}
+				}
+			}
 			r.Check(succProvider, "successors/provider-args", v.loop.Pos(), "a provider's successors are the types of ALL its Args")
 			r.Check(succField, "successors/field-parent", v.loop.Pos(), "a field's successor is its Parent")
 			// sibling cross-check: solve and gather follow the same fields
@@ -425,6 +482,109 @@ func init() {
 				})
 				return true
 			})
+			// generalised forms of the two trail facts (membership search in a helper analysed in place)
+			if succLoop != nil && (!okCmp || !okPush) {
+				succ := fi.varOf(succLoop.Value)
+				derivesFrom := func(f *FuncInfo, e ast.Expr, want *types.Var) bool {
+					for k := 0; k < 6; k++ {
+						vv := f.varOf(e)
+						if vv == nil {
+							return false
+						}
+						if vv == want {
+							return true
+						}
+						d := f.singleDef(vv) // one step at a time: deref would run past the variable we look for
+						if d == nil || d.idx >= 0 || d.rhs == nil {
+							return false
+						}
+						e = d.rhs
+					}
+					return false
+				}
+				// an Identical(successor, element of the trail) inside a complete loop over the trail …
+				var member *ast.CallExpr
+				fi.inspect(succLoop.Body, func(nd ast.Node) bool {
+					id, ok := nd.(*ast.CallExpr)
+					if !ok || fi.calleeName(id) != fnIdentical || len(id.Args) != 2 {
+						return true
+					}
+					in, ok := fi.enclosingLoop(id).(*ast.RangeStmt)
+					if !ok || in.Value == nil || !derivesFrom(fi, in.X, v.curr) {
+						return true
+					}
+					elem := fi.varOf(in.Value)
+					x, y := id.Args[0], id.Args[1]
+					if !((derivesFrom(fi, x, succ) && fi.varOf(y) == elem) || (derivesFrom(fi, y, succ) && fi.varOf(x) == elem)) {
+						return true
+					}
+					// nothing in the loop body precedes the test (no element is skipped)
+					if len(in.Body.List) == 0 {
+						return true
+					}
+					first, ok := in.Body.List[0].(*ast.IfStmt)
+					if !ok || fi.isCall(first.Cond, fnIdentical) != id {
+						return true
+					}
+					member = id
+					return true
+				})
+				if member != nil {
+					// … whose success is what the cycle report is conditional on
+					for _, cl := range fi.callsDeep(succLoop.Body) {
+						if fi.calleeName(cl) != fnECAdd {
+							continue
+						}
+						for _, g := range fi.Guards(cl) {
+							if !g.Neg && fi.isCall(g.Expr, fnIdentical) == member {
+								okCmp = true
+							}
+						}
+					}
+					// … and whose failure is what the push is conditional on
+					fi.inspect(succLoop.Body, func(nd ast.Node) bool {
+						as, ok := nd.(*ast.AssignStmt)
+						if !ok || len(as.Lhs) != 1 || len(as.Rhs) != 1 || fi.varOf(as.Lhs[0]) != v.stk {
+							return true
+						}
+						ap := fi.isBuiltin(as.Rhs[0], "append")
+						if ap == nil || len(ap.Args) != 2 {
+							return true
+						}
+						nx := fi.isBuiltin(fi.deref(ap.Args[1]), "append")
+						if nx == nil || len(nx.Args) != 2 || fi.varOf(nx.Args[1]) != succ {
+							return true
+						}
+						cp := fi.isBuiltin(nx.Args[0], "append")
+						if cp == nil || len(cp.Args) != 2 || fi.varOf(cp.Args[1]) != v.curr || !cp.Ellipsis.IsValid() {
+							return true
+						}
+						if _, isCall := ast.Unparen(cp.Args[0]).(*ast.CallExpr); !isCall {
+							if _, isLit := ast.Unparen(cp.Args[0]).(*ast.CompositeLit); !isLit {
+								return true
+							}
+						}
+						gs := fi.GuardsWithin(as, succLoop.Body)
+						if len(gs) != 1 {
+							return true
+						}
+						if sv, found, ok := fi.searchTest(gs[0]); ok && !found {
+							if d := fi.singleDef(sv); d != nil {
+								if call, isCall := ast.Unparen(d.rhs).(*ast.CallExpr); isCall {
+									if S := fi.C.searchRet[call]; S != nil {
+										for _, g := range fi.C.linked[call].GuardsWithin(S, fi.C.linked[call].Decl) {
+											if !g.Neg && fi.isCall(g.Expr, fnIdentical) == member {
+												okPush = true
+											}
+										}
+									}
+								}
+							}
+						}
+						return true
+					})
+				}
+			}
 			r.Check(okCmp, "trail/compare-all", v.loop.Pos(), "each successor is compared by types.Identical with every element of the trail; a match adds a cycle error")
 			r.Check(okPush, "trail/push-extended", v.loop.Pos(), "a non-cyclic successor is pushed with a fresh copy of the trail extended by exactly that successor")
 			// that is the ONLY way onto the stack: any other push inside the search loop would follow an edge
